@@ -391,7 +391,7 @@ func c18spaceFor(tier string) c18space {
 		ports:   []string{"", "53", "5353", "65535", "65536", "65589"},
 		dials:   []string{"", "192.0.2.7", "192.0.2.7:8853", "2001:db8::7", "[2001:db8::7]:8853", "dial.example.net", "dial.example.net:8853"},
 		paths:   []string{"", "/dns-query"},
-		vias:    []string{"", "socks5", "bootstrap", "refuse-first"},
+		vias:    []string{"", "socks5", "bootstrap", "refuse-first", "redirect-first"},
 	}
 	if tier == "thorough" {
 		sp.schemes = append(sp.schemes, "ftp")
